@@ -698,6 +698,9 @@ class Ctx:
                     ax.append(z3.Implies(b1 == 0, z3.Implies(p1 > 0, o1 == 0)))
                     ax.append(z3.Implies(b1 == 1, o1 == 1))
                     ax.append(z3.Implies(p1 == 1, o1 == b1))
+                    ax.append(z3.Implies(z3.And(b1 >= 0, b1 <= 1, p1 > 0), o1 <= 1))
+                    ax.append(z3.Implies(z3.And(b1 >= 1, p1 > 0), o1 >= 1))
+                    ax.append(z3.Implies(z3.And(b1 > 0, p1 > 0), o1 > 0))
                     for (b2, p2), o2 in apps:
                         if o1 is o2:
                             continue
@@ -720,13 +723,26 @@ class Ctx:
                     if name in mono:
                         ax.append(z3.Implies(a1 < a2, o1 < o2))
                         ax.append(z3.Implies(a1 == a2, o1 == o2))
+                    if name in ("sinh", "asinh"):           # odd and increasing
+                        ax.append(z3.Implies(a1 == -a2, o1 == -o2))
+                        ax.append(z3.Implies(a1 > -a2, o1 > -o2))
+                        ax.append(z3.Implies(a1 < -a2, o1 < -o2))
             inv = {"log": "exp", "exp": "log", "sinh": "asinh", "asinh": "sinh"}.get(name)
             if inv in self.uf_apps:
                 for a1, o1 in apps:
                     for a2, o2 in self.uf_apps[inv]:
                         # f(g(x)) = x : if the argument of f is g's output
                         dom_ok = (a2 > 0) if inv == "log" else z3.BoolVal(True)
+                        if name == "log":
+                            dom_ok = z3.And(dom_ok, a1 > 0)
                         ax.append(z3.Implies(z3.And(a1 == o2, dom_ok), o1 == a2))
+                        # f increasing and f(g(s)) = s: compare f's argument with g's output
+                        ax.append(z3.Implies(z3.And(a1 < o2, dom_ok), o1 < a2))
+                        ax.append(z3.Implies(z3.And(a1 > o2, dom_ok), o1 > a2))
+                        if name in ("sinh", "asinh"):
+                            ax.append(z3.Implies(a1 == -o2, o1 == -a2))
+                            ax.append(z3.Implies(a1 > -o2, o1 > -a2))
+                            ax.append(z3.Implies(a1 < -o2, o1 < -a2))
         return ax
 
     def solver(self, logic=None, timeout_ms=60000):
